@@ -263,6 +263,13 @@ def shuffle_modes(ctx, n=None):
             # main process before the other layers are resumed in subprocesses - which must shuffle like the parent
             worlds.shape_argv_clobber(rng, w, wo)
             wo.pop("processes", None)
+        if i % 4 == 0:
+            # the layers that come first take longest: their subprocesses finish last
+            order_ = sorted([k for k, l in enumerate(w["layers"]) if l["kind"] != "unit"], key=lambda k: worlds.layer_name(w, k))
+            for rank, k in enumerate(order_[:-1]):
+                ts_ = [t for t in w["tests"] if t["layer"] == k and not t.get("doctest")]
+                if ts_:
+                    ts_[0]["setUp"]["sleep"] = 0.6 * (len(order_) - rank)
         if i % 4 == 1:
             # every iteration's failures and errors count and are listed - by the main process and by the layer
             # subprocesses alike (a test that fails in both iterations is named twice)
@@ -333,6 +340,10 @@ def shuffle_modes(ctx, n=None):
                 for key, what in (("fail_names", "failures"), ("err_names", "errors")):
                     if sorted(p1[key]) != sorted(p2[key]):
                         bad = "'Tests with %s' lists %r sequentially, %r with -j %d" % (what, sorted(p1[key]), sorted(p2[key]), j)
+                    elif p1[key] != p2[key]:
+                        # the lists are lists: layer by layer in the layer order, whichever subprocess finishes first
+                        bad = "'Tests with %s' lists %r in this order sequentially, in the order %r with -j %d" % (
+                            what, p1[key], p2[key], j)
                 # the failures and errors of the "Total:" line (the tests figure under --repeat and the skipped figure of
                 # subprocesses are D5 / D4)
                 if not bad and p1["total"] and p2["total"] and p1["total"][1:3] != p2["total"][1:3]:
